@@ -99,6 +99,9 @@ def g12(pid, tier, replay):
 def g15(pid, tier, replay):
     plan = {
         "design": [("MC_GraphLaws", "Extract_quick.cfg" if tier == Q else "Extract_thorough.cfg", 3000)],
+        # all 32 768 graphs on three identifiers (every edge set incl. dangling targets, every root set) x every start node:
+        # a seeded sample in quick, all of them in thorough
+        "graphs_universe": ("Extract_export.cfg", 4000 if tier == Q else 0),
         "gens": [{"args": ["--mode", "extract", "--n", "60" if tier == Q else "600", "--ids", "4"]},
                  {"args": ["--mode", "extract", "--n", "6" if tier == Q else "40", "--ids", "12"]}],
         "rule": "seeded random directed multigraphs (two edge types, arbitrary root sets, a third ill-formed with dangling "
